@@ -61,8 +61,12 @@ enum Cp {
 enum Case {
     /// PATCH events, no rewind
     Patch { cp: Cp },
-    /// PATCH events with rewind to index j; proof ok / wrong
+    /// PATCH events with rewind to index j; proof ok / wrong. With a good
+    /// proof the patch is the merged patch (removed records ++ new event)
     Rewind { j: usize, good: bool },
+    /// good proof but the patch omits the records the rewind removes:
+    /// the server may accept (log = prefix ++ patch) or refuse (unchanged)
+    RewindDropping { j: usize },
     RewindAbsent,
     /// PATCH /sync/account with a Diff for the log
     SyncDiff { cp: Cp },
@@ -92,6 +96,9 @@ fn items(tier: Tier) -> Vec<Item> {
             for j in 0..HIST_LEN {
                 v.push(Item { log: l, case: Case::Rewind { j, good: true }, server_db: db });
                 v.push(Item { log: l, case: Case::Rewind { j, good: false }, server_db: db });
+                if j + 1 < HIST_LEN {
+                    v.push(Item { log: l, case: Case::RewindDropping { j }, server_db: db });
+                }
             }
             v.push(Item { log: l, case: Case::RewindAbsent, server_db: db });
         }
@@ -277,13 +284,35 @@ async fn run_item(t: &Template, it: &Item, work: &Path) -> Value {
                 let base = &s[..=*j];
                 let proof = if *good { tree_of(base).head().unwrap() } else { mk_proof(&Cp::ForgedRoot, base) };
                 expect_success = *good;
-                request_desc = format!("patch(rewind to index {} of {}, removing {} records, proof {})", j, n, n - 1 - j, if *good { "matching" } else { "wrong" });
-                let r = client.patch(PatchRequest { log_type: log_type(it.log, t), commit: Some(CommitHash(s[*j].commit().0)), proof, patch: vec![x.clone()] }).await;
+                request_desc = format!("patch(rewind to index {} of {}, removing {} records, proof {}, patch = removed records + one new event)", j, n, n - 1 - j, if *good { "matching" } else { "wrong" });
+                let mut patch: Vec<EventRecord> = s[*j + 1..].to_vec();
+                patch.push(x.clone());
+                let r = client.patch(PatchRequest { log_type: log_type(it.log, t), commit: Some(CommitHash(s[*j].commit().0)), proof, patch: patch.clone() }).await;
                 response = match r {
                     Ok(r) => Ok(match r.checked_patch { CheckedPatch::Success(_) => "Success".into(), CheckedPatch::Conflict { .. } => "Conflict".into() }),
                     Err(e) => Err(e.to_string()),
                 };
                 expected_log = if *good {
+                    let mut e = base.to_vec();
+                    e.extend(patch);
+                    e
+                } else {
+                    s.clone()
+                };
+            }
+            Case::RewindDropping { j } => {
+                let base = &s[..=*j];
+                let proof = tree_of(base).head().unwrap();
+                request_desc = format!("patch(rewind to index {} of {}, removing {} records that the patch does not carry)", j, n, n - 1 - j);
+                let r = client.patch(PatchRequest { log_type: log_type(it.log, t), commit: Some(CommitHash(s[*j].commit().0)), proof, patch: vec![x.clone()] }).await;
+                let ok = matches!(&r, Ok(r) if matches!(r.checked_patch, CheckedPatch::Success(_)));
+                response = match r {
+                    Ok(r) => Ok(match r.checked_patch { CheckedPatch::Success(_) => "Success".into(), CheckedPatch::Conflict { .. } => "Conflict".into() }),
+                    Err(e) => Err(e.to_string()),
+                };
+                // either answer is allowed by C07; the log must be consistent with it
+                expect_success = ok;
+                expected_log = if ok {
                     let mut e = base.to_vec();
                     e.push(x.clone());
                     e
@@ -347,6 +376,7 @@ async fn run_item(t: &Template, it: &Item, work: &Path) -> Value {
                 format!("rewind_removing_{}_{}", if removed >= 2 { "several" } else if removed == 1 { "one" } else { "none" }, if *good { "good_proof" } else { "wrong_proof" })
             }
             Case::RewindAbsent => "rewind_absent".into(),
+            Case::RewindDropping { .. } => "rewind_dropping_unmerged".into(),
             Case::SyncDiff { cp } => format!("sync_diff_{:?}", cp).to_lowercase(),
         };
         let same = |a: &[EventRecord], b: &[EventRecord]| -> bool {
@@ -382,9 +412,11 @@ async fn run_item(t: &Template, it: &Item, work: &Path) -> Value {
             };
             fails.push(json!({"sig": format!("server:{}:{}:{}", casek, kind, lname), "what": format!("after {} the server log has {} records (before: {}), expected {}", request_desc, got.len(), s.len(), expected_log.len())}));
         }
-        // every other log untouched
+        // every other log untouched by a refused request (an accepted
+        // account-log patch is interpreted by the server and may
+        // legitimately touch the folders it describes)
         for (k, v) in &before {
-            if k != &name {
+            if k != &name && !expect_success {
                 let g = after.get(k).cloned().unwrap_or_default();
                 if !same(&g, v) {
                     fails.push(json!({"sig": format!("server:{}:other_log_changed:{}", casek, lname), "what": format!("{} changed log {}", request_desc, k)}));
